@@ -194,6 +194,26 @@ class Values(Sub):
             out.fail(sig + name + '/depends-on-memory-layout', 'calculate(r) gives different values for a strided view of r than for a contiguous array')
         if not (np.array_equal(buf[0::2], r) and np.all(buf[1::2] == -1.0)):
             out.fail(sig + name + '/modifies-r', 'calculate(r) wrote into the buffer behind a strided view of r')
+        # write-protected r; integer-typed r (separations that happen to be whole numbers, e.g. np.arange(1, 6))
+        ro = r.copy()
+        ro.setflags(write=False)
+        try:
+            with np.errstate(all='ignore'):
+                ur = np.asarray(make_potential(name, p, sigma).calculate(ro))
+            if ur.shape != u.shape or not np.array_equal(ur, u, equal_nan=True):
+                out.fail(sig + name + '/depends-on-memory-layout', 'calculate(r) gives different values for a write-protected r')
+        except (ValueError, TypeError) as exc:
+            out.fail(sig + name + '/needs-writable-r', 'calculate(r) raised %s: %s for a write-protected r' % (type(exc).__name__, exc))
+        ri = np.arange(1, 7, dtype=np.int64)
+        try:
+            with np.errstate(all='ignore'):
+                ui = np.asarray(make_potential(name, p, sigma).calculate(ri), dtype=float)
+                uf = np.asarray(make_potential(name, p, sigma).calculate(ri.astype(float)), dtype=float)
+            if ui.shape != uf.shape or not np.array_equal(ui, uf, equal_nan=True):
+                out.fail(sig + name + '/depends-on-dtype', 'calculate(r) gives different values for integer-typed r than for the same separations as floats',
+                         got=ui.tolist(), want=uf.tolist())
+        except (ValueError, TypeError) as exc:
+            out.fail(sig + name + '/depends-on-dtype', 'calculate(r) raised %s: %s for integer-typed r' % (type(exc).__name__, exc))
         # elementwise: a sub-sample / permutation gives the same values at the same points
         g = np.random.Generator(np.random.PCG64(spec['sub_seed']))
         idx = g.permutation(len(r))[:max(1, len(r) // 2)]
